@@ -98,14 +98,17 @@ UNIT = dict(
     dict(id='segment_empty', entry='h_segment_empty', cls='shape-complete', defs={'KMAX': 4, 'SMAX': 4}, unwind=17, flags=['--object-bits', '10']),
     dict(id='init', entry='h_init', cls='shape-complete', defs={'KMAX': 4, 'SMAX': 4}, unwind=17),
     dict(id='dtor', entry='h_dtor', cls='shape-complete', defs={'KMAX': 3, 'SMAX': 3}, unwind=10, unwindset=['kbq_dtor.0:10'], solver=['--sat-solver', 'cadical'], note='minisat does not finish on this instance, cadical needs 0.2 s'),
-    dict(id='committed_int', entry='h_committed_int', mode='INT', cls='shape-complete', defs={'KMAX': 3, 'SMAX': 4}, unwind=13, flags=['--object-bits', '10'],
-         note='k in 1..3, segments in 1..4; environment = transitive closure of the other threads\' moves (rely in assumptions)'),
+    dict(id='committed_int', entry='h_committed_int', mode='INT', cls='shape-complete', defs={'KMAX': 3, 'SMAX': 4, 'XV_ATOMIC_SNAPSHOT': 1}, unwind=13, flags=['--object-bits', '10'],
+         note='k in 1..3, segments in 1..4; environment = transitive closure of the other threads\' moves (rely in assumptions); the (tail, head) pair read by committed() is an atomic snapshot'),
+    dict(id='committed_int_split', entry='h_committed_int', mode='INT', cls='shape-complete', defs={'KMAX': 3, 'SMAX': 4}, unwind=13, flags=['--object-bits', '10'],
+         note='as committed_int, but the environment may also move head/tail between the two loads of committed(): known finding F12b'),
     dict(id='push_int', entry='h_push_int', mode='INT', cls='shape-complete', defs={'KMAX': 2, 'SMAX': 2, 'XV_STUB': 1}, unwind=5,
          note='retry loop cut (one arbitrary iteration), arbitrary environment, callees = recording stubs'),
     dict(id='pop_int', entry='h_pop_int', mode='INT', cls='shape-complete', defs={'KMAX': 2, 'SMAX': 2, 'XV_STUB': 1}, unwind=5,
          note='retry loop cut (one arbitrary iteration), arbitrary environment, callees = recording stubs'),
   ],
   obligations={
+    'kbq.push.commit_split_snapshot': dict(deciding=True, text='[INT] as kbq.push.commit, with an environment step between the load of _tail and the load of _head in committed(): known finding F12b (the pair may describe a region that never existed)'),
     'kbq.idx.roundtrip': dict(deciding=True, text='for every (k, num_segments) the constructor accepts and every v < k*num_segments: marked_idx(v, m).get() == v, .mark() == m mod 2^(64-bits), and tag+1 gives a different word'),
     'kbq.ctor.size': dict(deciding=True, text='an accepted constructor call has _queue_size >= 1 and has passed the exact no-wrap test (k*num_segments mod 2^64) / k == num_segments, i.e. _queue_size == k*num_segments'),
     'kbq.ctor.state': dict(deciding=True, text='an accepted constructor call leaves _k == k, head == tail == (index 0, tag 0) and one value-initialised array of _queue_size entries'),
